@@ -26,7 +26,7 @@ OUTSIDE = ['.p8.png include targets (their reading is C04)',
            'the recogniser on lines with junk after the file name']
 
 P8_TEXT = (b'pico-8 cartridge // http://www.pico-8.com\nversion 8\n__lua__\n'
-           b't0=0\n-->8\nt1=1\nt1b=2\n-->8\nt2=3\n__gfx__\n')
+           b't0=0\n-->8\nt1=1\n#include nested.lua\n-->8\nt2=3\n__gfx__\n')
 
 
 def tabs(x, p):
@@ -71,7 +71,8 @@ def splice(x, p):
     kind = p['kind']
     pos = x.choice('pos', [0, 1, 2])
     final_nl = x.choice('final_nl', [True, False])
-    tab = x.choice('tab', [None, 0, 1, 2, 3]) if kind != 'lua' else None
+    tab = x.choice('tab', [None, 0, 1, 2, 3, 10, 12]) if kind != 'lua' \
+        else None
     sub = x.choice('sub', ['', 'lib/'])
     name = sub + ('inc.lua' if kind == 'lua' else 'inc.p8')
     # a non-include line that merely mentions an include must stay a line
@@ -137,9 +138,9 @@ def splice(x, p):
     if kind == 'lua':
         inc = [b'x=1\n', b'y=2\n']
     else:
-        tabs_ = [[b't0=0\n'], [b't1=1\n', b't1b=2\n'], [b't2=3\n']]
+        tabs_ = [[b't0=0\n'], [b't1=1\n', b'#include nested.lua\n'], [b't2=3\n']]
         if tab is None:
-            inc = [b't0=0\n', b'-->8\n', b't1=1\n', b't1b=2\n', b'-->8\n',
+            inc = [b't0=0\n', b'-->8\n', b't1=1\n', b'#include nested.lua\n', b'-->8\n',
                    b't2=3\n']
         elif tab < 3:
             inc = tabs_[tab]
@@ -151,7 +152,7 @@ def splice(x, p):
         if second.endswith('.lua'):
             exp += [b'x=1\n', b'y=2\n']
         else:
-            exp += [b't0=0\n', b'-->8\n', b't1=1\n', b't1b=2\n', b'-->8\n',
+            exp += [b't0=0\n', b'-->8\n', b't1=1\n', b'#include nested.lua\n', b'-->8\n',
                     b't2=3\n']
     x.out('out', b''.join(out))
     x.check('include line replaced by the target\'s lines; other lines '
